@@ -702,6 +702,12 @@ class Message:
         violated.
         """
 
+        if any(c in uri for c in "\t\r\n") or (uri and uri[0] <= " "):
+            # urllib would silently remove them
+            raise error.MalformedUrlError(
+                "Whitespace and control characters need to be percent encoded"
+            )
+
         try:
             parsed = urllib.parse.urlparse(uri)
         except ValueError as e:
